@@ -107,6 +107,24 @@ def used_symbols(x):
     return set()
 
 
+def file_round_trip(blackbird, p0, text, p_from_text):
+    import os, tempfile
+    fd, path = tempfile.mkstemp(suffix=".xbb", prefix="bbc01_")
+    try:
+        with os.fdopen(fd, "w", encoding="utf-8", newline="") as fh:
+            blackbird.dump(p0, fh)
+        with open(path, encoding="utf-8", newline="") as fh:
+            if fh.read() != text:
+                return "dump() wrote a different text than dumps() returned"
+        try:
+            pf = blackbird.load(path)
+        except BaseException as e:      # noqa: BLE001
+            return "load() of the dumped file raised %s: %s" % (type(e).__name__, str(e)[:150])
+        return exact_program(p_from_text, pf)
+    finally:
+        os.remove(path)
+
+
 def chain(case, d):
     import blackbird
     from .. import realrun
@@ -134,6 +152,11 @@ def chain(case, d):
         if r[0] == "raise":
             return "bad", dict(d, reason="generation %d: the serialised text is refused (%s: %s); serialised text:\n%s" % (g, r[1], r[2][:150], t), texts=texts)
         p = r[1]
+        if g == 1:
+            # the same generation through a file: dump() into a UTF-8 text file, load() of that file
+            why = file_round_trip(blackbird, p0, t, p)
+            if why:
+                return "bad", dict(d, reason="generation 1 through a file: %s; serialised text:\n%s" % (why, t), texts=texts)
         why = progcmp.cmp_program(case["out"]["prog"], p, sections=("meta", "ops", "params"), kw_order=True)
         if why is None:
             why = exact_program(p0, p)
